@@ -662,11 +662,33 @@ func (r *runner) resolveCompletedTasks(ctx context.Context, completedTasks []*ta
 			nVs := copyItem(vs[len(t.call.writeTo)+len(t.call.writeToBranches)-1], toCopyNum+1)
 			vs = append(vs[:len(t.call.writeTo)+len(t.call.writeToBranches)-1], nVs...)
 
+			// the branches may have selected fewer nodes than there are branches: the copies prepared
+			// for them that no successor takes are released, otherwise the source is never closed
+			for i := len(nextNodeKeys); i < len(vs); i++ {
+				if sr, ok := vs[i].(streamReader); ok {
+					sr.close()
+				}
+			}
+			vs = vs[:len(nextNodeKeys)]
+
 			for i, next := range nextNodeKeys {
 				if _, ok := writeChannelValues[next]; !ok {
 					writeChannelValues[next] = make(map[string]any)
 				}
+				if old, ok := writeChannelValues[next][t.nodeKey]; ok {
+					// two branches selected the same successor: it takes one copy, the other is released
+					if sr, ok := old.(streamReader); ok {
+						sr.close()
+					}
+				}
 				writeChannelValues[next][t.nodeKey] = vs[i]
+			}
+		} else {
+			// nothing follows this node: the copies prepared for the branches' selections are released
+			for i := 0; i < len(t.call.writeTo)+len(t.call.writeToBranches); i++ {
+				if sr, ok := vs[i].(streamReader); ok {
+					sr.close()
+				}
 			}
 		}
 	}
